@@ -1,0 +1,135 @@
+//go:build verif
+
+package ads
+
+// Contracts for the authenticated map (property C09), read by the verification machinery in /verif.
+// Comment-only file.
+//
+// The trie is the assumed map model of github.com/pokt-network/smt (ghost dom / val, root = rootof(contents)),
+// the size and root cells are the assumed TypedValue model (/verif/contracts/trusted). On top of them: Get / Has
+// agree with the trie contents, Delete reports whether the key was present, Root is the root of the current
+// contents, Commit stores the current root before committing the nodes, and the stored size follows the number of
+// keys: ghost n counts the membership changes of the trie (+1 when Set adds a new key, -1 when Delete removes
+// one), and on every path on which all writes succeed the size cell holds n. Partial failures (an error after the
+// trie was updated) leave the size cell behind; they are visible as the conditional form of the postconditions.
+
+/*@
+type authenticatedMap
+  ghost n Int
+  invariant self.tree != nil && self.size != nil && self.root != nil && self.rawKeysStore != nil
+  invariant self.keyToBytes != nil && self.valueToBytes != nil && self.bytesToValue != nil
+  invariant 0 <= self.n && self.n < 4611686018427387904 && (self.size.has ==> self.size.val == self.n) && (!self.size.has ==> self.n == 0)
+  callback keyToBytes(k) (b, err)
+  callback valueToBytes(v) (b, err)
+    ensures err == nil ==> base(b) != 0            -- assumed: a successful serializer returns a non-nil slice (see DESIGN)
+  callback bytesToValue(b) (v, n, err)
+
+func authenticatedMap.has
+  instantiate IdentifierType: [32]byte
+  instantiate K: string
+  instantiate V: string
+  requires m != nil && inv(m)
+  ensures err == nil ==> (has <==> sel(m.tree.dom, str(keyBytes)))
+
+func authenticatedMap.addSize
+  instantiate IdentifierType: [32]byte
+  instantiate K: string
+  instantiate V: string
+  requires m != nil && m.size != nil && 0 - 1 <= delta && delta <= 1
+  requires m.size.has ==> 0 <= m.size.val + delta && m.size.val < 4611686018427387904
+  requires !m.size.has ==> delta >= 0
+  modifies m.size.has, m.size.val
+  -- assumed: TypedValue.Get returns the zero value together with an error
+  ghost after call TypedValue.Get: assume r1 != nil ==> r0 == 0
+  ensures r0 == nil ==> m.size.has && m.size.val == (old(m.size.has) ? old(m.size.val) : 0) + delta
+  ensures r0 != nil ==> (m.size.has <==> old(m.size.has)) && m.size.val == old(m.size.val)
+
+func authenticatedMap.Has
+  instantiate IdentifierType: [32]byte
+  instantiate K: string
+  instantiate V: string
+  opt sequential
+  requires m != nil && inv(m) && unlocked(m.mutex)
+  ensures unlocked(m.mutex)
+
+func authenticatedMap.Delete
+  instantiate IdentifierType: [32]byte
+  instantiate K: string
+  instantiate V: string
+  opt sequential
+  requires m != nil && inv(m) && unlocked(m.mutex)
+  modifies m.tree.dom, m.tree.val, m.size.has, m.size.val, m.n
+  -- ghost: the number of keys follows the membership change
+  ghost after call SMT.Delete: m.n = m.n - (result == nil ? 1 : 0)
+  -- assumed: n is the number of keys in the trie, so a key that is present means n >= 1 (cardinality is not expressible)
+  ghost before call SMT.Delete: assume m.n >= 1
+  ensures unlocked(m.mutex)
+  ensures err == nil ==> inv(m)
+  ensures err == nil && !deleted ==> m.tree.dom == old(m.tree.dom) && m.n == old(m.n)
+  ensures err == nil && deleted ==> m.n == old(m.n) - 1
+
+func authenticatedMap.Size
+  instantiate IdentifierType: [32]byte
+  instantiate K: string
+  instantiate V: string
+  opt sequential
+  requires m != nil && inv(m) && unlocked(m.mutex)
+  ensures unlocked(m.mutex) && (r0 == m.n || r0 == 0)          -- a failing read of the size cell is reported as 0
+
+func authenticatedMap.Root
+  instantiate IdentifierType: [32]byte
+  instantiate K: string
+  instantiate V: string
+  opt sequential
+  requires m != nil && inv(m) && unlocked(m.mutex)
+  ensures unlocked(m.mutex)
+  -- the root of the current contents (a function of the contents alone, by the assumed trie contract)
+  ensures r0 == arrof(rootof(m.tree.dom, m.tree.val))
+global lastKey Str         -- the serialized form of the key the current call works on (ghost)
+
+func authenticatedMap.Set
+  instantiate IdentifierType: [32]byte
+  instantiate K: string
+  instantiate V: string
+  opt sequential
+  requires m != nil && inv(m) && unlocked(m.mutex) && m.n + 1 < 4611686018427387904         -- fewer than 2^62 keys
+  modifies m.tree.dom, m.tree.val, m.size.has, m.size.val, m.n, ghost(lastKey)
+  ghost after call authenticatedMap#keyToBytes: lastKey = str(r0)
+  ghost after call SMT.Update: m.n = m.n + ((result == nil && !has) ? 1 : 0)
+  ensures unlocked(m.mutex)
+  ensures r0 == nil ==> inv(m)
+  ensures r0 == nil ==> m.tree.dom == upd(old(m.tree.dom), lastKey, true)
+  ensures r0 == nil ==> m.n == old(m.n) + (sel(old(m.tree.dom), lastKey) ? 0 : 1)
+  ensures r0 == nil ==> forall k Str :: k != lastKey ==> sel(m.tree.val, k) == sel(old(m.tree.val), k)
+
+func authenticatedMap.Get
+  instantiate IdentifierType: [32]byte
+  instantiate K: string
+  instantiate V: string
+  opt sequential
+  requires m != nil && inv(m) && unlocked(m.mutex)
+  modifies ghost(lastKey)
+  ghost after call authenticatedMap#keyToBytes: lastKey = str(r0)
+  ensures unlocked(m.mutex)
+  ensures err == nil ==> (exists <==> sel(m.tree.dom, lastKey))
+  ensures !sel(m.tree.dom, lastKey) && err == nil ==> !exists
+
+-- the current root is stored (successfully) before the nodes are committed
+func authenticatedMap.Commit
+  instantiate IdentifierType: [32]byte
+  instantiate K: string
+  instantiate V: string
+  opt sequential
+  requires m != nil && inv(m) && unlocked(m.mutex)
+  modifies m.root.has, m.root.val
+  ghost before call SMT.Commit: assert m.root.has && m.root.val == arrof(rootof(m.tree.dom, m.tree.val))
+  ensures unlocked(m.mutex)
+  ensures r0 == nil ==> m.root.has && m.root.val == arrof(rootof(m.tree.dom, m.tree.val))
+
+func authenticatedMap.WasRestoredFromStorage
+  instantiate IdentifierType: [32]byte
+  instantiate K: string
+  instantiate V: string
+  requires m != nil && inv(m)
+  ensures r0 <==> m.root.has
+@*/
